@@ -504,7 +504,7 @@ func pairs23(r *hk.Run, rng *hk.Rand, count int, st stack) {
 		if ex.Retry && cfg.Request != nil {
 			cfg.Request.Set[slotOut] = true // see h1Pairs
 		}
-		id := fmt.Sprintf("%s-%d", st.name, i)
+		id := ""
 		run := func(cfg *dumpCfg) (runOut, []wireEx) {
 			wc := newWroteCounter()
 			var gate func(int)
@@ -518,8 +518,17 @@ func pairs23(r *hk.Run, rng *hk.Rand, count int, st stack) {
 			ws := st.take()
 			return out, ws
 		}
-		off, wOff := run(nil)
-		on, wOn := run(&cfg)
+		var off, on runOut
+		var wOff, wOn []wireEx
+		for attempt := 0; attempt < 3; attempt++ { // see h1Pairs
+			id = fmt.Sprintf("%s-%d-%d", st.name, i, attempt)
+			off, wOff = run(nil)
+			on, wOn = run(&cfg)
+			if !envTrouble(off, on) {
+				break
+			}
+			r.Count(st.name + ".retried-pair")
+		}
 		if debugSlow(off, on) {
 			fmt.Fprintf(debugW, "slow %s %s %s off=%v on=%v %s/%s\n", st.name, ex.Shape, cfg.shape(), off.Elapsed, on.Elapsed, off.Res.Err, on.Res.Err)
 		}
